@@ -74,7 +74,7 @@ class Grammar:
     ) -> None:
         self.alternatives: dict[type, list[type]] = {}
         self.starting_symbol = starting_symbol
-        self.distanceToTerminal = {int: 0, str: 0, float: 0}
+        self.distanceToTerminal = {int: 0, str: 0, float: 0, bool: 0}
         self.all_nodes = set()
         self.recursive_prods = set()
         self.terminals = set()
@@ -308,7 +308,7 @@ class Grammar:
                         changed |= process_reachability(sym, prods)
                 else:
                     if is_terminal(sym, self.non_terminals):
-                        if (sym is int or sym is float or sym is str) and not self.expansion_depthing:
+                        if (sym is int or sym is float or sym is str or sym is bool) and not self.expansion_depthing:
                             val = 0
                         else:
                             val = 1
